@@ -83,6 +83,7 @@ func TestMain(m *testing.M) {
 	evid.Helpers("faultcmd")
 	evid.Commands("obiconvert", "obicsv")
 	evid.Note("rule", "A fault case = writer (WriteFasta, WriteFastq, WriteJSON, WriteCSV) x batches (record count each, 0 = empty batch) x arrival permutation x gzip on/off x CloseFile on/off x fault kind (short write + error, error only, both sticky; one transient error; error at Close) x byte offset k in the stream handed to the writer. Each case is one run of harness/cmd/faultcmd: the real Write* function on a failing io.WriteCloser, iterator consumed, obiiter.WaitForLastPipe, return from main; log.Fatalf is a real exit(1). Reference T = stream of the same configuration without fault (same helper, run once per configuration, with a trace of every Write call of the stream and whether Wfile.Close was executing). Oracle: the stream returned an error at least once => exit status != 0 and a non-info line on stderr; it never did => exit 0 and stream == T byte for byte. Enumerated: EVERY offset 0..|T|+1 of outputs of 230-350 bytes (everything sits in the 4 KiB buffer until the final flush; gzip streams 130-230 bytes) and of 5.7-6 KiB (buffer flushed once during the writes; gzip streams 1.3-2.1 KiB) for the 4 writers, plain and gzip, arrival orders in order / all buffered / alternating / last-first / one early chunk, the other dimensions (kind, CloseFile) fully crossed (small outputs) or rotated with k (6 KiB outputs) in the thorough tier; the quick tier enumerates every offset of the small uncompressed outputs (every third of the gzip ones) with the other dimensions rotated, and samples the 6 KiB offsets (a stride plus every buffer, chunk and stream boundary +-1); both tiers sample outputs of 20 KiB whose four chunks each exceed the buffer (stride + every boundary +-1, up to 3 chunks waiting when the fault strikes); random configurations up to 40 KiB (rarely > 1 MiB in the thorough tier, so that gzip blocks are written before Close) with 1..4 workers. Real commands: obiconvert (fasta, fastq, json, -Z) with -o /dev/full and stdout on /dev/full, obicsv with stdout on /dev/full, and stdout on a 4 KiB pipe whose read end is closed after k bytes (verdict only if |T| > k + pipe capacity; death by SIGPIPE accepted). Non-trivial = one formatting worker and (the failing Write call of the stream is issued while Wfile.Close runs, i.e. the fault is only visible at the final flush / gzip close, or the stream's Close fails and CloseFile is set, or >= 1 chunk was waiting in the re-sequencing buffer when the chunk whose Write hits the fault was written - derived from the arrival permutation with the C04 buffer model and the chunk boundaries found in T); for real commands: /dev/full with an output below 4 KiB or compressed (error only at flush/close). Distinct = hash of the whole case. Timed-out subprocesses are skipped and counted.")
+	evid.Note("level", "fault_enumeration")
 	evid.Main(m, "C18")
 }
 
